@@ -89,6 +89,48 @@ func funcSig(fd *ast.FuncDecl) string {
 	return strings.ReplaceAll(ptr+"("+list(fd.Type.Params)+")->("+list(fd.Type.Results)+")", " ", "")
 }
 
+// funcPrint is a body fingerprint that survives renames of the function itself, of its locals and
+// parameters: the sorted multiset of selector names, called identifiers and basic literal kinds.
+func funcPrint(fd *ast.FuncDecl) string {
+	if fd.Body == nil {
+		return "-"
+	}
+	counts := map[string]int{}
+	ast.Inspect(fd.Body, func(n ast.Node) bool {
+		switch x := n.(type) {
+		case *ast.SelectorExpr:
+			counts["."+x.Sel.Name]++
+		case *ast.CallExpr:
+			if id, ok := x.Fun.(*ast.Ident); ok {
+				counts["("+id.Name]++
+			}
+		case *ast.ReturnStmt:
+			counts["return"]++
+		case *ast.ForStmt, *ast.RangeStmt:
+			counts["loop"]++
+		case *ast.IfStmt:
+			counts["if"]++
+		}
+		return true
+	})
+	var ks []string
+	for k, v := range counts {
+		ks = append(ks, fmt.Sprintf("%s%d", k, v))
+	}
+	sort.Strings(ks)
+	h := uint32(2166136261)
+	for _, k := range ks {
+		for i := 0; i < len(k); i++ {
+			h ^= uint32(k[i])
+			h *= 16777619
+		}
+	}
+	return fmt.Sprintf("%08x", h)
+}
+
+// baselinePrints: ident -> body fingerprint of the recorded functions.
+var baselinePrints = map[string]string{}
+
 // baselineSigs: ident -> signature of the recorded functions (filled by loadBaseline).
 var baselineSigs = map[string]string{}
 
@@ -108,12 +150,16 @@ func loadBaseline(verif string) (map[string]bool, error) {
 		ln := strings.TrimSpace(sc.Text())
 		if ln != "" && !strings.HasPrefix(ln, "#") {
 			// "pkgpath recv name\tsignature"
-			id, sig := ln, ""
+			id, sig, fp := ln, "", ""
 			if i := strings.Index(ln, "\t"); i >= 0 {
 				id, sig = ln[:i], ln[i+1:]
+				if j := strings.Index(sig, "\t"); j >= 0 {
+					sig, fp = sig[:j], sig[j+1:]
+				}
 			}
 			out[id] = true
 			baselineSigs[id] = sig
+			baselinePrints[id] = fp
 		}
 	}
 	return out, sc.Err()
@@ -135,7 +181,7 @@ func writeBaseline(dir, tags, out string) error {
 		for _, f := range p.Syntax {
 			for _, d := range f.Decls {
 				if fd, ok := d.(*ast.FuncDecl); ok {
-					lines = append(lines, funcIdent(p.PkgPath, fd)+"\t"+funcSig(fd))
+					lines = append(lines, funcIdent(p.PkgPath, fd)+"\t"+funcSig(fd)+"\t"+funcPrint(fd))
 				}
 			}
 		}
@@ -144,7 +190,7 @@ func writeBaseline(dir, tags, out string) error {
 	if err := writeFieldBaseline(dir, tags, filepath.Join(filepath.Dir(out), "baseline_fields.txt")); err != nil {
 		return err
 	}
-	hdr := "# functions declared in the tree the rules were confirmed on (pkgpath recv name <tab> signature); calls to\n# module functions NOT listed here are expanded in place before analysis, a recorded function that only\n# changed its name is recognised by package+receiver+signature (see inline.go)\n"
+	hdr := "# functions declared in the tree the rules were confirmed on (pkgpath recv name <tab> signature <tab> body fingerprint); calls to\n# module functions NOT listed here are expanded in place before analysis, a recorded function that only\n# changed its name is recognised by package+receiver+signature (see inline.go)\n"
 	return os.WriteFile(out, []byte(hdr+strings.Join(lines, "\n")+"\n"), 0o644)
 }
 
@@ -165,7 +211,7 @@ func normaliseHelpers(dir, tags string, env []string, baseline map[string]bool) 
 	}
 	anyNew := false
 	present := map[string]bool{}
-	type cand struct{ id, name string }
+	type cand struct{ id, name, print string }
 	fresh := map[string][]cand{} // "pkgpath recv sig" -> new functions
 	for _, p := range pp {
 		if !strings.HasPrefix(p.PkgPath, modulePath) {
@@ -178,7 +224,7 @@ func normaliseHelpers(dir, tags string, env []string, baseline map[string]bool) 
 					present[id] = true
 					if fd.Body != nil && !baseline[id] {
 						cls := id[:strings.LastIndex(id, " ")] + " " + funcSig(fd)
-						fresh[cls] = append(fresh[cls], cand{id, fd.Name.Name})
+						fresh[cls] = append(fresh[cls], cand{id, fd.Name.Name, funcPrint(fd)})
 					}
 				}
 			}
@@ -196,14 +242,38 @@ func normaliseHelpers(dir, tags string, env []string, baseline map[string]bool) 
 		delete(renamedFuncs, k)
 	}
 	for cls, fs := range fresh {
-		if gs := gone[cls]; len(fs) == 1 && len(gs) == 1 {
-			old := gs[0][strings.LastIndex(gs[0], " ")+1:]
-			renamedFuncs[fs[0].id] = old
-			notes = append(notes, fmt.Sprintf("%s is the recorded function %s under a new name", fs[0].id, old))
-			baseline[fs[0].id] = true // not a new helper: it is not expanded
-			continue
+		gs := gone[cls]
+		matched := map[string]bool{}
+		pair := func(f cand, g string) {
+			old := g[strings.LastIndex(g, " ")+1:]
+			renamedFuncs[f.id] = old
+			notes = append(notes, fmt.Sprintf("%s is the recorded function %s under a new name", f.id, old))
+			baseline[f.id] = true // not a new helper: it is not expanded
+			matched[f.id] = true
 		}
-		anyNew = true
+		if len(fs) == 1 && len(gs) == 1 {
+			pair(fs[0], gs[0])
+		} else if len(gs) > 0 {
+			// several candidates of the same shape: pair those whose bodies have the same fingerprint
+			used := map[string]bool{}
+			for _, f := range fs {
+				var hit []string
+				for _, g := range gs {
+					if !used[g] && baselinePrints[g] != "" && baselinePrints[g] == f.print {
+						hit = append(hit, g)
+					}
+				}
+				if len(hit) == 1 {
+					used[hit[0]] = true
+					pair(f, hit[0])
+				}
+			}
+		}
+		for _, f := range fs {
+			if !matched[f.id] {
+				anyNew = true
+			}
+		}
 	}
 	if !anyNew {
 		return nil, notes, nil
@@ -1123,12 +1193,12 @@ func writeFieldBaseline(dir, tags, out string) error {
 			}
 			for i := 0; i < st.NumFields(); i++ {
 				f := st.Field(i)
-				lines = append(lines, fmt.Sprintf("%s %s %s\t%s", relPkg(p.PkgPath), n, f.Name(), types.TypeString(f.Type(), nil)))
+				lines = append(lines, fmt.Sprintf("%s %s %s\t%s\t%d/%d", relPkg(p.PkgPath), n, f.Name(), types.TypeString(f.Type(), nil), i, st.NumFields()))
 			}
 		}
 	}
 	sort.Strings(lines)
-	hdr := "# fields of the module's struct types in the tree the rules were confirmed on (rel type field <tab> type);\n# a field the rules look for that is gone is matched to the one new field of the same type in that struct\n"
+	hdr := "# fields of the module's struct types in the tree the rules were confirmed on (rel type field <tab> type <tab> index/count);\n# a field the rules look for that is gone is matched to the one new field of the same type in that struct\n"
 	return os.WriteFile(out, []byte(hdr+strings.Join(lines, "\n")+"\n"), 0o644)
 }
 
